@@ -209,6 +209,7 @@ class MainLoop(Contract):
     tags = {'C05', 'C10', 'C12', 'C14', 'C19'}
     slice_from = 'updatetime'
     canary = True
+    property_hints = True      # the per-iteration reference term IS the statement of C12/C05 (step result independent of the output block)
 
     def slice_setup(self, ex, st):
         # enum values of HDF5File::AppendType from the AST of the aux dump
